@@ -81,7 +81,9 @@ class RowCollector:
         if self._array:
             for n, name in enumerate(self._columns):
                 data = getattr(self,name)
-                new = np.array(values[n],dtype=data.dtype)
+                # a column declared with dtype=str starts as '<U1': the width has to follow the text that arrives
+                dtype = None if data.dtype.kind in 'US' else data.dtype
+                new = np.array(values[n],dtype=dtype)
                 setattr(self,name, np.append(data,new) )
         else:
             for n, name in enumerate(self._columns):
